@@ -16,7 +16,7 @@ use crate::values::Op;
 use crate::worldcase::{compile_case, decode_world_case, first_line, GenConfig, WorldCase};
 
 /// (vid, property) pairs that carry a `>=` filter with a tag operand (listed finding: its dynamic hint is an upper bound)
-fn ge_tag_sites(case: &WorldCase) -> BTreeSet<(usize, String)> {
+pub fn ge_tag_sites(case: &WorldCase) -> BTreeSet<(usize, String)> {
     let mut out = BTreeSet::new();
     case.ann.root.walk(&mut |n| {
         for p in &n.props {
